@@ -379,6 +379,141 @@ pub fn medium_inputs(tier: &str) -> Vec<Built> {
     v
 }
 
+/// Newman modularity in f64 for graphs beyond 32 nodes (integer weights, so sums are exact)
+fn newman_q(edges: &[(usize, usize, f64)], directed: bool, comm_of: &[usize], ncomm: usize, weighted: bool, gamma: f64) -> f64 {
+    let w = |e: &(usize, usize, f64)| if weighted { e.2 } else { 1.0 };
+    let m: f64 = edges.iter().map(w).sum();
+    let (mut lc, mut so, mut si) = (vec![0.0; ncomm], vec![0.0; ncomm], vec![0.0; ncomm]);
+    for e in edges {
+        let (a, b) = (comm_of[e.0], comm_of[e.1]);
+        if a == b {
+            lc[a] += w(e);
+        }
+        so[a] += w(e);
+        si[b] += w(e);
+    }
+    (0..ncomm).map(|c| if directed { lc[c] / m - gamma * so[c] * si[c] / (m * m) } else { lc[c] / m - gamma * ((so[c] + si[c]) / (2.0 * m)).powi(2) }).sum()
+}
+
+/// graphs with several hundred to a few thousand edges (sizes around round numbers): interleaved rings
+/// of cliques, both kinds; default order only, same safety oracle
+fn large_louvain_stage(tier: &str, rec: &Recorder, c: &mut Counters) {
+    use graphrs::{Edge, Graph, GraphSpecs, Node};
+    let shapes: Vec<(usize, usize)> = if tier == "quick" { vec![(12, 5), (26, 5), (33, 6), (40, 8)] } else { vec![(12, 5), (20, 5), (26, 5), (27, 5), (33, 6), (52, 5), (40, 8), (70, 6), (105, 5), (60, 9)] };
+    for (cliques, size) in shapes {
+        for directed in [false, true] {
+            for weighted in [false, true] {
+                let n = cliques * size;
+                // node i belongs to clique i % cliques (interleaved, so communities are not contiguous in node order)
+                let mut edges: Vec<(usize, usize, f64)> = vec![];
+                for a in 0..n {
+                    for b in (a + 1)..n {
+                        if a % cliques == b % cliques {
+                            let wt = if weighted { (1 + (a + b) % 3) as f64 } else { f64::NAN };
+                            if directed && (a + b) % 2 == 1 {
+                                edges.push((b, a, wt));
+                            } else {
+                                edges.push((a, b, wt));
+                            }
+                        }
+                    }
+                }
+                for k in 0..cliques {
+                    let (a, b) = (k, (k + 1) % cliques + cliques);
+                    let wt = if weighted { 1.0 } else { f64::NAN };
+                    if directed && k % 2 == 0 {
+                        edges.push((b, a, wt));
+                    } else {
+                        edges.push((a, b, wt));
+                    }
+                }
+                let mut g: Graph<i32, ()> = Graph::new(if directed { GraphSpecs::directed() } else { GraphSpecs::undirected() });
+                for i in (0..n).rev() {
+                    g.add_node(Node::from_name(i as i32));
+                }
+                for &(a, b, wt) in &edges {
+                    let _ = g.add_edge(std::sync::Arc::new(Edge { u: a as i32, v: b as i32, weight: wt, attributes: None }));
+                }
+                let ew: Vec<(usize, usize, f64)> = edges.iter().map(|e| (e.0, e.1, if e.2.is_nan() { 1.0 } else { e.2 })).collect();
+                for seed in [0u64, 1] {
+                    for res in [None, Some(2.0)] {
+                        c.inc("large_graph_runs");
+                        let case = format!("LL:{cliques}x{size}:{}:{}:seed={seed}:res={res:?}", if directed { "directed" } else { "undirected" }, if weighted { "w" } else { "u" });
+                        let hz = 100 + 10 * n;
+                        let mut k = 0usize;
+                        verif_hooks::set_observer(Some(Box::new(move |site, _| {
+                            if site == "louvain.sweep" {
+                                k += 1;
+                                if k > hz {
+                                    std::panic::panic_any(StopRun(format!("more than {hz} sweeps")));
+                                }
+                            }
+                        })));
+                        let r = guarded(|| louvain::louvain_partitions(&g, weighted, res, None, Some(seed)));
+                        verif_hooks::set_observer(None);
+                        let mk = |clause: &str, detail: String| Violation::new(clause, "louvain_partitions", case.clone(), format!("{cliques} interleaved cliques of {size} nodes in a ring ({} edges, n={n}), {}, weighted={weighted}, resolution={res:?}, seed={seed}\n{detail}", edges.len(), if directed { "directed" } else { "undirected" })).with_tags(vec!["large_graph".into()]);
+                        match r {
+                            Err(pi) => {
+                                if let Some(why) = is_stop(&pi) {
+                                    rec.record(mk("termination", format!("did not terminate: {why}")));
+                                } else {
+                                    rec.record(mk("no_panic", pi.msg.clone()).with_panic(pi));
+                                }
+                            }
+                            Ok(Err(e)) => rec.record(mk("unexpected_error", format!("Err({:?})", e.kind))),
+                            Ok(Ok(levels)) => {
+                                if levels.is_empty() {
+                                    rec.record(mk("levels_nonempty", "no level returned".into()));
+                                    continue;
+                                }
+                                let gamma = res.unwrap_or(1.0);
+                                let singles: Vec<usize> = (0..n).collect();
+                                let mut prev_q = newman_q(&ew, directed, &singles, n, weighted, gamma);
+                                let mut prev_comm: Vec<usize> = singles.clone();
+                                for (li, lv) in levels.iter().enumerate() {
+                                    let mut comm_of = vec![usize::MAX; n];
+                                    let mut ok = true;
+                                    for (ci, cset) in lv.iter().enumerate() {
+                                        if cset.is_empty() {
+                                            ok = false;
+                                        }
+                                        for &x in cset {
+                                            let xi = x as usize;
+                                            if xi >= n || comm_of[xi] != usize::MAX {
+                                                ok = false;
+                                            } else {
+                                                comm_of[xi] = ci;
+                                            }
+                                        }
+                                    }
+                                    if !ok || comm_of.iter().any(|&x| x == usize::MAX) {
+                                        rec.record(mk("level_is_partition", format!("level {li} is not a partition of the node set")));
+                                        break;
+                                    }
+                                    // nested: nodes sharing a community at the previous level still share one
+                                    let mut rep: std::collections::HashMap<usize, usize> = std::collections::HashMap::new();
+                                    let nested = (0..n).all(|v| *rep.entry(prev_comm[v]).or_insert(comm_of[v]) == comm_of[v]);
+                                    if !nested {
+                                        rec.record(mk("nested", format!("level {li} is not a coarsening of the previous level")));
+                                        break;
+                                    }
+                                    let q = newman_q(&ew, directed, &comm_of, lv.len(), weighted, gamma);
+                                    if q < prev_q - 1e-9 {
+                                        rec.record(mk("modularity_monotone", format!("modularity decreases at level {li}: {q} after {prev_q} ({} communities)", lv.len())));
+                                        break;
+                                    }
+                                    prev_q = q;
+                                    prev_comm = comm_of;
+                                }
+                            }
+                        }
+                    }
+                }
+            }
+        }
+    }
+}
+
 pub fn params(tier: &str) -> Params {
     if tier == "quick" {
         Params { bound: 1, budget: 300, seeds: vec![0, 1], free_seeds: 4 }
@@ -410,6 +545,11 @@ pub fn run(tier: &str, rec: &Recorder) -> RunOutput {
             tot.lock().unwrap().merge(&c);
         });
         stats.counters.lock().unwrap().merge(&tot.into_inner().unwrap());
+    }
+    {
+        let mut c = Counters::default();
+        large_louvain_stage(tier, rec, &mut c);
+        stats.counters.lock().unwrap().merge(&c);
     }
     fill_e2_coverage(&mut out, &stats);
     out.set("input_graphs", out.get("states"));
